@@ -762,6 +762,12 @@ class ExprMixin:
                 i = lift(idx, KInt).z
             ok = z3.And(i >= 0, i < n)
             return self.partial(st, fr, ok, 'IndexError', lambda s: SVal(KStr, [z3.SubString(sz, i, 1)]))
+        if k == KName and idx == 0 and 'fs_hidden' in self.reg.ufuncs:
+            # first character of a (non-empty) name: all that is known about it is whether it is a dot (fs_hidden)
+            hid = self.reg.ufuncs['fs_hidden'][0](base.z)
+            oth = z3.Function('name_first_char', I, z3.StringSort())(base.z)
+            st.assume(oth != z3.StringVal('.'))
+            return [(st, SVal(KStr, [z3.If(hid, z3.StringVal('.'), oth)]))]
         raise CheckerError('subscript on %r in %s' % (k, fr.qual))
 
     def slice(self, st, fr, base, lo, hi, step):
